@@ -77,8 +77,34 @@ func randFields(rng *rand.Rand) []string {
 
 var filterTexts = []string{"", "gametype='CO-OP'", "numplayers!=maxplayers and password=0", "gamever='1.1' and gamevariant='SWAT 4'", "''", "x", "hostport>1 and ", "numplayers<"}
 
+// nastyFilter: a filter string of the GameSpy shape whose values sit on the edges of the value parser
+// (lone quotes, empty quotes, quotes inside, signs without digits, operators without operands, long runs)
+func nastyFilter(rng *rand.Rand) string {
+	q := "'"
+	vals := []string{q, q + q, q + q + q, q + "a", "a" + q, q + "a" + q + "b" + q, "", "0", "+", "-", "+1", "-0", "99999999999999999999", q, "hostname", q + " and " + q, "=", "!", "<>"}
+	ops := []string{"=", "!=", "<", ">", "==", "=!", "", "<=", " = "}
+	n := 1 + rng.Intn(3)
+	parts := make([]string, n)
+	for i := range parts {
+		f := queryFields[rng.Intn(len(queryFields))]
+		if rng.Intn(8) == 0 {
+			f = []string{"", "nosuchfield", "host name"}[rng.Intn(3)]
+		}
+		parts[i] = f + ops[rng.Intn(len(ops))] + vals[rng.Intn(len(vals))]
+	}
+	sep := " and "
+	if rng.Intn(6) == 0 {
+		sep = []string{" and", "and ", " AND ", "  and  "}[rng.Intn(4)]
+	}
+	return strings.Join(parts, sep)
+}
+
 func validRequest(rng *rand.Rand) []byte {
-	return BrowserRequest(rng, filterTexts[rng.Intn(len(filterTexts))], randFields(rng), []byte{0, 0, 0, byte(rng.Intn(2))})
+	filters := filterTexts[rng.Intn(len(filterTexts))]
+	if rng.Intn(2) == 0 {
+		filters = nastyFilter(rng)
+	}
+	return BrowserRequest(rng, filters, randFields(rng), []byte{0, 0, 0, byte(rng.Intn(2))})
 }
 
 func mutateTCP(rng *rand.Rand, emit func([]byte)) {
